@@ -41,7 +41,7 @@ func (world) Run(k *kernel.K) {
 func (world) Rule(p string) string {
 	switch p {
 	case "C15", "C16":
-		return "one run = 1-3 real blocktree.BlockTree instances fed the same generated blocks (depth<=12, siblings, primary/secondary marks, tied arrival instants) through per-node inboxes whose delivery order, duplication and interleaving with finalisations are tape-chosen; after every event the touched node is compared with a reference tree built from parent links (block set, leaves, best block, pruned set, ancestry/LCA/range/by-number queries on sampled and finally all pairs). A run is non-trivial if it finalised at least once with >=2 blocks in the tree or delivered out of order/duplicated; distinct = distinct event-kind sequence fingerprint."
+		return "one run = 1-3 real blocktree.BlockTree instances fed the same generated blocks (depth<=12, siblings, primary/secondary marks, tied arrival instants) through per-node inboxes whose delivery order, duplication and interleaving with finalisations are tape-chosen; after every event the touched node is compared with a reference tree built from parent links (block set, leaves, best block, pruned set, ancestry/LCA/range/by-number queries on sampled and finally all pairs). A run is non-trivial if it finalised at least once with >=2 blocks in the tree or delivered out of order/duplicated; distinct = distinct event-kind sequence fingerprint. A fifth of the C15 runs instead let 2-3 concurrent callers issue 1-3 calls each (AddBlock of new blocks, of blocks another caller adds too, of children of blocks another caller adds; Prune of an initial block) on a copy of lib/blocktree generated at check time whose mutexes are the cooperative scheduler's (every Lock/Unlock is a tape-decided scheduling point, nothing else is changed); the results of all calls and the final tree (all blocks as a multiset, leaves) must equal those of some order of the calls that keeps each caller's own order, executed on a reference tree."
 	case "C17":
 		return "one run = a real dot/state BlockState+StorageState over simdisk inside a synctest bubble; blocks with real state tries are imported in tape-chosen order, finalisation requests target descendants, the head again, stale ancestors, pruned siblings and unknown hashes; restarts reload from the simulated disk; in half of the finalisations a concurrent reader gets its turn between the disk writes of SetFinalisedHash (HasHeader/GetHeader of any block ever produced, tape-chosen per write). After every request: accepted => known descendant; rejected => head/tree/unfinalised/tries unchanged; every finalised-chain block resolvable by number from the DB; no abandoned block retrievable as unfinalised, no abandoned state trie cached. Non-trivial = at least one accepted finalisation that abandoned >=1 block or one restart."
 	case "C23":
